@@ -143,7 +143,7 @@ func run(c *lib.Ctx) error {
 		defer wgM.Done()
 		for _, m := range mruns {
 			name := fmt.Sprintf("MCPipeline N=%d Cap=%d arch=%d cross=%v live=%v", m.n, m.cp, m.arch, m.cross, m.live)
-			r, err := c.TLC(name, lib.TLCRun{Dir: dir, Module: "MCPipeline", Workers: c.Pick(3, 6), Timeout: tlcTimeout, HeapGB: 8,
+			r, err := c.TLC(name, lib.TLCRun{Dir: dir, Module: "MCPipeline", Workers: c.Pick(2, 4), Timeout: tlcTimeout, HeapGB: 8,
 				Files: map[string][]byte{"MCPipeline.cfg": mcCfg(m.n, m.cp, 1, m.arch, m.cross, m.live)}})
 			if err != nil {
 				setErr(err)
@@ -177,7 +177,7 @@ func run(c *lib.Ctx) error {
 	}
 
 	rng := rand.New(rand.NewSource(c.Seed))
-	npipes := c.Pick(40, 700)
+	npipes := c.Pick(40, 400)
 	if n, err := strconv.Atoi(os.Getenv("C18_N")); err == nil { // development only
 		npipes = n
 	}
@@ -234,7 +234,7 @@ func run(c *lib.Ctx) error {
 	if len(cur.items) > 0 {
 		batches = append(batches, cur)
 	}
-	lib.Parallel(len(batches), c.Pick(4, 6), func(i int) {
+	lib.Parallel(len(batches), c.Pick(2, 4), func(i int) {
 		b := batches[i]
 		v, err := validate(c, "TracePipeline", b.evs, cp, tlcTimeout)
 		if err != nil {
